@@ -105,7 +105,7 @@ def check_sink(ck: Checker, f: Func, sink: Sink, kind: str, rule: str) -> None:
                 else:
                     raise Unsupported(f"{label}: encode error handler {norm(handler)[:40]}", c)
     if lossy:
-        viol(what, lossy, sink.call)
+        viol(what, lossy, sink.call, positive=True)
     else:
         ck.holds(rule, f, sink.call, what)
 
